@@ -201,6 +201,34 @@ func alsoConstant(name string, mode eng.Mode, in []*big.Int, fn gad.Fn, want []*
 	return nil
 }
 
+// twiceEvery: every n-th gadget case is additionally built twice in one circuit (same API object,
+// hence the same cached Goldilocks chip, key/value store and deferred range-check collection): the
+// second evaluation must give the same values as a lone one.
+var twiceEvery = uint64(9)
+
+func alsoTwice(name string, mode eng.Mode, in []*big.Int, fn gad.Fn, want []*big.Int) *caseResult {
+	if twiceEvery == 0 {
+		return nil
+	}
+	h := rec.Hash("twice" + name + fmt.Sprint(in))
+	if h%twiceEvery != 0 {
+		return nil
+	}
+	if curSuite != nil {
+		curSuite.r.AddExtra("evaluated_twice_in_one_circuit", 1)
+	}
+	fn2 := func(api frontend.API, v []frontend.Variable) []frontend.Variable {
+		fn(api, v)
+		return fn(api, v)
+	}
+	cr := expectOutputsEng(name+"[second evaluation in the same circuit]", mode, in, fn2, want)
+	if cr.Viol != "" {
+		cr.Viol = name + "/twice/" + cr.Viol[strings.LastIndex(cr.Viol, "/")+1:]
+		return &cr
+	}
+	return nil
+}
+
 // expectOutputs runs a gadget honestly and compares its outputs with the reference values.
 func expectOutputs(name string, mode eng.Mode, in []*big.Int, fn gad.Fn, want []*big.Int) caseResult {
 	cr := expectOutputsEng(name, mode, in, fn, want)
@@ -210,6 +238,9 @@ func expectOutputs(name string, mode eng.Mode, in []*big.Int, fn gad.Fn, want []
 		}
 		if c3 := alsoConstant(name, mode, in, fn, want); c3 != nil {
 			return *c3
+		}
+		if c4 := alsoTwice(name, mode, in, fn, want); c4 != nil {
+			return *c4
 		}
 	}
 	return cr
